@@ -172,7 +172,8 @@ def run(tier, seed):
         rng.shuffle(order)
         for k in range(0, len(order), per):
             idx = order[k:k + per]
-            steps = [{"import": to_json(terms[i], LIBN if (i + rep) % 2 == 0 else LIBS), "fresh_env": True} for i in idx]
+            # through eval_import, or as an import statement given to eval_ast with the environment it is meant for
+            steps = [{"import": to_json(terms[i], LIBN if (i + rep) % 2 == 0 else LIBS), "fresh_env": True, "via_ast": (i + rep) % 3 == 0} for i in idx]
             jobs.append({"id": "c12-%d-%d" % (rep, k), "interps": [interp], "steps": steps, "fuel": 100000}); meta.append(idx)
     recs = core.run_jobs(jobs, leg, timeout=900 if tier == "quick" else 3000, tag="c12")
     seen = {}
